@@ -16,8 +16,8 @@ CFG = """SPECIFICATION Spec
 CONSTANTS
   Rcpts = {"r1", "r2"}
   HdrShapes = {"plain", "folded", "dup", "8bit", "long", "huge", "emptyval"}
-  BodyShapes = {"small", "empty", "binary", "large"}
-  Senders = {"null", "ascii", "idn", "quoted"}
+  BodyShapes = {"small", "empty", "binary", "large", "faulty"}
+  Senders = {"null", "ascii", "idn", "idndom", "quoted"}
   Auths = {"none", "auth-trace", "auth-notrace"}
   MaxSteps = %(steps)d
   MaxRestarts = %(restarts)d
@@ -25,7 +25,8 @@ CONSTANTS
   Gen = %(gen)s
 %(tail)s
 """
-DEVS = ["DropOverrideAtStart", "DropFlagOnReload", "SerializeConn", "TruncateHugeHeader", "AllRcptsOnRetry"]
+DEVS = ["DropOverrideAtStart", "DropFlagOnReload", "SerializeConn", "TruncateHugeHeader", "AllRcptsOnRetry",
+        "BounceRewritesEnvelope", "SwallowCopyError"]
 
 
 def cfg(steps, restarts, devs=(), gen=False, tail="VIEW View\nINVARIANT NoViolation\n"):
